@@ -163,7 +163,7 @@ class FnUninit:
             pt = t[:-1]
             sz = L.size_of(pt)
             if sz is None or sz > LIMIT: continue
-            if pt == "i8": continue                  # byte buffers / void*: arrays
+            if pt == "i8": sz = 1                    # byte buffers / void*: arrays of unknown length - only the first byte is tracked (enough for a `uint8_t *out` result parameter)
             self.objs[("arg", k)] = {"size": sz, "type": pt, "kind": "param", "name": fn.argnames.get(k, "#%d" % k)}
 
     def addr(self, o):
